@@ -22,7 +22,7 @@ pub fn curated() -> Vec<Vec<String>> {
         s(&["I   \u{2665}\u{2665}\u{2665} 36 and \u{663} and y\u{306}y\u{306} and \u{1f4a9}\u{1f4a9}."]),
         s(&["ab", "abb", "a"]), s(&["b", "ab", "aab", "aaab"]), s(&["xyz", "xyzxyz", "xyzxyzxyz"]),
         s(&["Z", "[", "\\"]), s(&["[", "\\", "]", "^"]), s(&["+", ",", "-"]), s(&["\t", "\n", "\u{b}"]), s(&["a.\u{e33}", "b"]), s(&["x+\u{1f3fb}"]), s(&["yes|\u{ff9e}no"]), s(&["\u{111c2}(", "("]),
-        s(&["((a((a((b((a((a((b"]), s(&["..a..a.b..a..a.b"]), s(&["aabaabaabaab"]), s(&["\\d\\d", "11"]),
+        s(&["aa1aa1"]), s(&["xx-xx-", "m0m1m"]), s(&["((a((a((b((a((a((b"]), s(&["..a..a.b..a..a.b"]), s(&["aabaabaabaab"]), s(&["\\d\\d", "11"]),
     ];
     for m in crate::space::A_META {
         v.push(vec![m.to_string()]);
